@@ -52,7 +52,7 @@ func addNumbers(n0, n1 slip.Object) slip.Object {
 	n0, n1 = slip.NormalizeNumber(n0, n1)
 	switch t0 := n0.(type) {
 	case slip.Fixnum:
-		n1 = t0 + n1.(slip.Fixnum)
+		n1 = addFixnums(t0, n1.(slip.Fixnum))
 	case slip.SingleFloat:
 		n1 = t0 + n1.(slip.SingleFloat)
 	case slip.DoubleFloat:
